@@ -418,6 +418,10 @@ def part_closers(rep, hbin, tier, seed, cov):
         "andor(X,Y,0)->and_n": lambda d: "andor(pk(A)," * d + "pk(B)" + ",0)" * d,
         "plain or_d chain": lambda d: "or_d(pk(A)," * d + "pk(B)" + ")" * d,
         "thresh chain": lambda d: "thresh(1," * d + "pk(B)" + ")" * d,
+        "sugar l: prefix": lambda d: "l" * min(d, 400) + ":pk(A)",
+        "sugar u: prefix": lambda d: "u" * min(d, 400) + ":pk(A)",
+        "sugar tv: prefix": lambda d: "tv" * min(d, 199) + ":pk(A)",
+        "sugar and_n chain": lambda d: "and_n(pk(A)," * d + "pk(B)" + ")" * d,
         "mixed l:tv:": lambda d: "or_i(0,and_v(v:" * ((d + 1) // 2) + "pk(A)" + ",1))" * ((d + 1) // 2),
     }
     lines, meta = [], []
